@@ -211,8 +211,14 @@ def edits():
         victim = r.choice(cands)
         prev = m.parameters[names[names.index(victim) - 1]]
         v = round(prev.init * 1.5 + 0.03, 4)
-        if not (prev.lower < v < prev.upper) or prev.fix:
-            raise ValueError("no admissible value")
+        if not (prev.lower < v < prev.upper):
+            hi = prev.upper if prev.upper < 1e5 else prev.init + 1.0
+            lo = prev.lower if prev.lower > -1e5 else prev.init - 1.0
+            v = round((prev.init + hi) / 2, 4)
+            if not (prev.lower < v < prev.upper) or v == prev.init:
+                v = round((prev.init + lo) / 2, 4)
+            if not (prev.lower < v < prev.upper) or v == prev.init:
+                raise ValueError("no admissible value")
         st = m.statements.reassign("S", s.expression.subs({victim: 0}))
         pars = Parameters.create([p.replace(init=v) if p.name == prev.name else p for p in m.parameters if p.name != victim])
         touched.add(victim)
